@@ -39,6 +39,7 @@ def _find_code(co, name):
 def _load_codes(repo):
     path = os.path.join(repo, "ak", "conn_http.py")
     mod = compile(open(path).read(), path, "exec")
+    _load_codes.mod = mod
     cls = _find_code(mod, "_HttpConnImpl")
     if cls is None:
         raise Refuse("class _HttpConnImpl not found in ak/conn_http.py")
@@ -559,6 +560,168 @@ def _extract_branch(req, counter):
     return {"test": test, "name": key[1], "headers_local": cont[1]}
 
 
+def _extract_hdr_init(mod):
+    """RequestArguments.__init__: what becomes `self.headers` -> 'copy' | 'alias'"""
+    cls = _find_code(mod, "RequestArguments")
+    init = _find_code(cls, "__init__") if cls is not None else None
+    if init is None or "headers" not in init.co_varnames[:init.co_argcount]:
+        raise Refuse("RequestArguments.__init__(…, headers) not found")
+    m = _Machine(init, "RequestArguments.__init__")
+    H = ("local", "headers")
+    results = []
+
+    def run(pc, stack, given, stored, depth):
+        if depth > 6:
+            raise Refuse("RequestArguments.__init__: too many branches")
+        while True:
+            if pc >= len(m.ins):
+                raise Refuse("RequestArguments.__init__: fell off the end")
+            i = m.ins[pc]
+            op = i.opname
+            if op in ("RESUME", "NOP"):
+                pass
+            elif op in ("LOAD_FAST", "LOAD_FAST_CHECK"):
+                stack.append(SELF if i.argval == "self" else ("local", i.argval))
+            elif op == "LOAD_CONST":
+                stack.append(("const", i.argval))
+            elif op == "LOAD_GLOBAL":
+                if i.arg & 1:
+                    stack.append(NULL)
+                stack.append(("global", i.argval))
+            elif op == "LOAD_ATTR":
+                obj = stack.pop()
+                if i.arg & 1:
+                    stack.extend([("meth", obj, i.argval), ("selfarg",)])
+                else:
+                    stack.append(("attr", obj, i.argval))
+            elif op == "CALL":
+                args = [stack.pop() for _ in range(i.arg)][::-1]
+                a, b = stack.pop(), stack.pop()
+                fn = a if b == NULL else b
+                if b != NULL and a != ("selfarg",):
+                    args = [a] + args
+                stack.append(("call", fn, tuple(args)))
+            elif op == "BUILD_MAP" and i.arg == 0:
+                stack.append(("newdict",))
+            elif op == "COPY":
+                stack.append(stack[-i.arg])
+            elif op == "SWAP":
+                stack[-1], stack[-i.arg] = stack[-i.arg], stack[-1]
+            elif op == "POP_TOP":
+                stack.pop()
+            elif op == "STORE_ATTR":
+                obj, val = stack.pop(), stack.pop()
+                if obj == SELF and i.argval == "headers":
+                    stored = val
+            elif op in ("POP_JUMP_IF_FALSE", "POP_JUMP_IF_TRUE", "POP_JUMP_IF_NONE", "POP_JUMP_IF_NOT_NONE"):
+                v = stack.pop()
+                if v != H:
+                    m.refuse(i, "a test on something else than the headers argument")
+                jump_when_given = op in ("POP_JUMP_IF_TRUE", "POP_JUMP_IF_NOT_NONE")
+                for g in ((True, False) if given is None else (given,)):
+                    run(m.at[i.argval] if g == jump_when_given else pc + 1, list(stack), g, stored, depth + 1)
+                return
+            elif op in ("RETURN_CONST", "RETURN_VALUE"):
+                results.append((given, stored))
+                return
+            else:
+                m.refuse(i, "opcode not understood")
+            pc += 1
+
+    try:
+        run(0, [], None, None, 0)
+    except IndexError:
+        raise Refuse("RequestArguments.__init__: stack underflow")
+    given = [v for g, v in results if g is True]
+    absent = [v for g, v in results if g is False]
+    if len(given) != 1 or len(absent) != 1:
+        raise Refuse("RequestArguments.__init__: self.headers is not chosen by one test of the headers argument")
+    if absent[0] not in (("newdict",), ("call", ("meth", H, "copy"), ())):
+        raise Refuse("RequestArguments.__init__: without caller headers self.headers is %r" % (absent[0],))
+    if given[0] in (("call", ("meth", H, "copy"), ()), ("call", ("global", "dict"), (H,))):
+        return "copy"
+    if given[0] == H:
+        return "alias"
+    raise Refuse("RequestArguments.__init__: with caller headers self.headers is %r" % (given[0],))
+
+
+def _has_seq(code, pattern):
+    """pattern: [(opname, argval or None)] occurs consecutively (CACHE/RESUME skipped); number of occurrences"""
+    ins = [(i.opname, i.argval) for i in dis.get_instructions(code) if i.opname not in ("CACHE", "RESUME")]
+    n = 0
+    for k in range(len(ins) - len(pattern) + 1):
+        if all(ins[k + j][0] == o and (a is None or ins[k + j][1] == a) for j, (o, a) in enumerate(pattern)):
+            n += 1
+    return n
+
+
+def _extract_kinds(path, mod):
+    """connection classes (direct subclasses of _HttpConnBase) and whether their constructor provably hands
+    the parent's conn_impl on: -> ([(class name, bool)], [reasons for False])"""
+    import ast
+    tree = ast.parse(open(path).read())
+    subs = [c.name for c in tree.body if isinstance(c, ast.ClassDef)
+            and any(isinstance(b, ast.Name) and b.id == "_HttpConnBase" for b in c.bases)]
+    if not subs:
+        raise Refuse("no subclass of _HttpConnBase found")
+    why = []
+    base = _find_code(mod, "_HttpConnBase")
+    impl = _find_code(mod, "_HttpConnImpl")
+    binit = _find_code(base, "__init__") if base is not None else None
+    iinit = _find_code(impl, "__init__") if impl is not None else None
+    if binit is None or iinit is None:
+        raise Refuse("_HttpConnBase.__init__ / _HttpConnImpl.__init__ not found")
+    # the base constructor: a connection passed as conn_data becomes parent_conn, whose conn_impl is taken
+    ins = [(i.opname, i.argval) for i in dis.get_instructions(binit) if i.opname not in ("CACHE", "RESUME")]
+    take = [("LOAD_GLOBAL", "isinstance"), ("LOAD_FAST", "conn_data"), ("LOAD_GLOBAL", "_HttpConnBase"), ("CALL", 2),
+            ("POP_JUMP_IF_FALSE", None), ("LOAD_FAST", "conn_data"), ("STORE_FAST", "parent_conn")]
+    if _has_seq(binit, take) != 1:
+        why.append("_HttpConnBase.__init__ does not start with 'isinstance(conn_data, _HttpConnBase): parent_conn = conn_data'")
+    else:
+        k = next(k for k in range(len(ins)) if ins[k:k + 3] == take[:3])
+        if any(o in ("STORE_FAST", "DELETE_FAST") and a in ("conn_data", "parent_conn") for o, a in ins[:k]):
+            why.append("_HttpConnBase.__init__ rebinds conn_data before looking at it")
+    if _has_seq(binit, [("LOAD_FAST", "parent_conn"), ("LOAD_ATTR", "conn_impl"), ("LOAD_FAST", "self"),
+                        ("STORE_ATTR", "conn_impl")]) != 1 or sum(1 for o, a in ins if (o, a) == ("STORE_ATTR", "conn_impl")) != 1:
+        why.append("_HttpConnBase.__init__ does not set self.conn_impl = parent_conn.conn_impl (once)")
+    if _has_seq(iinit, [("LOAD_FAST", "self"), ("LOAD_FAST", "self"), ("STORE_ATTR", "conn_impl")]) != 1:
+        why.append("_HttpConnImpl.__init__ does not set self.conn_impl = self")
+    for meth in ("get", "post", "put", "delete", "patch"):
+        mc = _find_code(base, meth)
+        if mc is None or _has_seq(mc, [("LOAD_FAST", "self"), ("LOAD_ATTR", "conn_impl"), ("LOAD_ATTR", "do_request")]) != 1:
+            why.append("_HttpConnBase.%s does not call self.conn_impl.do_request" % meth)
+    base_ok = not why
+    kinds = []
+    for name in subs:
+        cc = _find_code(mod, name)
+        init = _find_code(cc, "__init__") if cc is not None else None
+        ok = base_ok
+        if init is not None:
+            cins = [i for i in dis.get_instructions(init) if i.opname not in ("CACHE", "RESUME")]
+            sup = [n for n, i in enumerate(cins) if i.opname == "LOAD_SUPER_ATTR" and i.argval == "__init__"]
+            reason = None
+            if len(sup) != 1:
+                reason = "does not call super().__init__ exactly once"
+            elif any(i.opname in ("STORE_FAST", "DELETE_FAST") and i.argval == "conn_data" for i in cins):
+                reason = "rebinds conn_data"
+            else:
+                calls = [n for n, i in enumerate(cins) if i.opname == "CALL" and n > sup[0]]
+                last = calls[-1] if calls else None
+                start = sup[0]
+                while start > 0 and not (cins[start].opname == "LOAD_GLOBAL" and cins[start].argval == "super"):
+                    start -= 1
+                if last is None or cins[last - 1].opname != "LOAD_FAST" or cins[last - 1].argval != "conn_data":
+                    reason = "the last argument of super().__init__ is not conn_data"
+                elif any(i.opname.startswith(("POP_JUMP", "JUMP")) and i.argval > cins[start].offset for i in cins):
+                    reason = "branches around / inside the super().__init__ call"
+            if reason:
+                ok = False
+                why.append("%s.__init__ %s" % (name, reason))
+        kinds.append((name, ok))
+    return kinds, why
+
+
+_ANALYSIS = {}
 _ANALYSIS = {}
 
 
@@ -581,6 +744,8 @@ def analyse(repo):
             raise
         try:
             a.update(_extract_branch(req, a["counter"]))
+            a["init"] = _extract_hdr_init(_load_codes.mod)
+            a["kinds"], a["kinds_why"] = _extract_kinds(path, _load_codes.mod)
         except Exception as e:
             _ANALYSIS[key] = e
             raise
@@ -620,15 +785,40 @@ def translate(repo):
             "def hdrTest : HdrTest := .%s \"%s\".toList" % a["test"],
             "/-- … and is stored under this name -/",
             "def hdrName : List Char := \"%s\".toList" % a["name"],
-            "def cfg : Cfg := { prog := reqIdProgram, fmt := idFormat, test := hdrTest, name := hdrName }",
+            "/-- `RequestArguments.__init__`: the request works on a copy of the caller's dict, or on the dict itself -/",
+            "def hdrInit : HdrInit := .%s" % a["init"],
+            "/-- subclasses of `_HttpConnBase`; true = the constructor passes `conn_data` on unchanged and the base",
+            "constructor takes `parent_conn.conn_impl`%s -/" % ("".join("; NOT: " + w for w in a["kinds_why"])),
+            "def wrapKinds : List (List Char × Bool) := [" + ", ".join(
+                '("%s".toList, %s)' % (n, "true" if ok else "false") for n, ok in a["kinds"]) + "]",
+            "def cfg : Cfg := { prog := reqIdProgram, fmt := idFormat, test := hdrTest, name := hdrName,",
+            "                   init := hdrInit, kinds := wrapKinds }",
             "end Gen.C16", ""]
     return {"AkVerif/Gen/C16.lean": "\n".join(body)}
 
 
 
 # ====================================================================== forced interleavings of real threads
+class _ThreadingProxy:
+    """stands for the `threading` module inside ak.conn_http: locks the module creates (at construction
+    or lazily, later) are cooperative wrappers around real locks"""
+
+    def __getattr__(self, name):
+        return getattr(threading, name)
+
+    @staticmethod
+    def Lock():
+        return _CoopLock(threading.Lock())
+
+    @staticmethod
+    def RLock():
+        return _CoopLock(threading.RLock())
+
+
 def _conn_http():
     from ak import conn_http
+    if getattr(conn_http, "threading", None) is threading:
+        conn_http.threading = _ThreadingProxy()
     return conn_http
 
 
@@ -687,7 +877,7 @@ def wrap_locks(obj):
         found.update({n: v for n, v in vars(cls).items() if isinstance(v, _LOCK_TYPES)})
     found.update({n: v for n, v in vars(obj).items() if isinstance(v, _LOCK_TYPES)})
     for name, val in found.items():
-        setattr(obj, name, _CoopLock(val))
+        setattr(obj, name, _CoopLock(val))     # (_CoopLock objects are not of these types: never wrapped twice)
 
 
 _WARM = set()
@@ -869,8 +1059,9 @@ class Forced:
 THEOREMS = [
     "C16.program_ok", "C16.locked_unique", "C16.locked_gap_free", "C16.locked_in_order", "C16.par_ids",
     "C16.par_total", "C16.genSeq_ok", "C16.format_ok", "C16.format_injective", "C16.header_test_ok",
-    "C16.caller_id", "C16.derived_shares", "C16.program_fuel", "C16.request_auto", "C16.test_covers",
-    "C16.par_world",
+    "C16.caller_id", "C16.constructors_share", "C16.derived_shares", "C16.program_fuel", "C16.request_auto",
+    "C16.test_covers", "C16.hdr_init_ok", "C16.request_spec", "C16.request_caller_id",
+    "C16.request_auto_sent", "C16.par_world",
 ]
 
 
@@ -938,6 +1129,7 @@ class _Real:
         self.conns = []        # (connection object, family index)
         self.fams = []         # dict(impl=, cp_line=, ids=)
         self.extra_impls = []
+        self.dicts, self.dict_orig = [], []
         self.counter_attr, self.conn_attr, _ = _names()
 
     def canon(self, fam, v):
@@ -950,11 +1142,19 @@ class _Real:
             return f["cp_line"] + v[len(real):]
         return v
 
-    def new(self, cp, ids):
-        if ids:
-            c = self.ch.HttpConn("http://host.example")
+    def new(self, cp, ids, form="str"):
+        addr = "http://host.example"
+        if not ids:
+            data = [addr, False] if form == "list" else {"address": addr, "_send_request_ids": False}
+        elif form == "list":
+            data = (addr,)
+        elif form == "dict":
+            data = {"address": addr}
+        elif form == "slash":
+            data = addr + "/"
         else:
-            c = self.ch.HttpConn({"address": "http://host.example", "_send_request_ids": False})
+            data = addr
+        c = self.ch.HttpConn(data)
         wrap_locks(c.conn_impl)
         self.fams.append({"impl": c.conn_impl, "cp_line": cp, "ids": ids})
         self.conns.append((c, len(self.fams) - 1))
@@ -964,11 +1164,11 @@ class _Real:
         parent, fam = self.conns[c]
         ch = self.ch
         if kind == "bauth":
-            d = ch.BAuthConn(parent, "user", "pw")
+            d = ch.BAuthConn(parent, *AUTH_ARGS["bauth"])
         elif kind == "token":
-            d = ch.TokenAuthConn(parent, "tok")
+            d = ch.TokenAuthConn(parent, *AUTH_ARGS["token"])
         elif kind == "client":
-            d = ch.ClientAuthConn(parent, "cn", "cid", "cs")
+            d = ch.ClientAuthConn(parent, *AUTH_ARGS["client"])
         elif kind == "prefix":
             d = ch.HttpConn(parent, adapters=[ch.RequestAdapterAddPathPrefix("/api")])
         else:
@@ -979,12 +1179,48 @@ class _Real:
         self.conns.append((d, fam))
         return len(self.conns) - 1
 
-    def send(self, c, pairs, method="get"):
+    def new_dict(self, pairs):
+        self.dicts.append(dict(pairs))
+        self.dict_orig.append(list(pairs))
+        return len(self.dicts) - 1
+
+    def source(self, t):
+        """'#k' -> (the caller's dict object k, what the caller put into it); pairs -> (a dict for this call, pairs)"""
+        if t.startswith("#"):
+            k = int(t[1:])
+            return self.dicts[k], self.dict_orig[k]
+        pairs = dec_hdrs(t)
+        return (dict(pairs) if pairs else None), pairs
+
+    def send(self, c, hdrs, method="get"):
         conn, _ = self.conns[c]
-        kw = {"headers": dict(pairs)} if pairs else {}
+        kw = {"headers": hdrs} if hdrs is not None else {}
         if method in ("post", "put", "patch"):
             kw["data"] = {"k": 1}
         getattr(conn, method)("p", **kw)
+
+
+AUTH_ARGS = {"bauth": ("user", "pw"), "token": ("tok",), "client": ("cn", "cid", "cs")}
+
+
+def auth_value(kind):
+    """what the adapter of a connection of this kind puts under 'Authorization' (text; '' = no adapter)"""
+    import base64
+    if kind == "bauth":
+        return "Basic " + base64.b64encode(b"user:pw").decode()
+    if kind == "client":
+        return "Basic " + base64.b64encode(b"cid:cs").decode()
+    if kind == "token":
+        return "Bearer tok"
+    return None
+
+
+def _val(v):
+    return v if isinstance(v, str) else v.decode("latin-1") if isinstance(v, bytes) else repr(v)
+
+
+def show_dict(d):
+    return enc_hdrs([(str(k), _val(v)) for k, v in d.items()])
 
 
 def _show(v):
@@ -1016,7 +1252,7 @@ def _run(case):
             d = {"kind": tok[0] if tok else "?"}
             try:
                 if tok[0] == "new":
-                    k = w.new(dec_str(tok[1]), tok[2] == "1")
+                    k = w.new(dec_str(tok[1]), tok[2] == "1", tok[3] if len(tok) > 3 else "str")
                     d.update(fam=w.conns[k][1], ids=tok[2] == "1")
                     replies.append("ok %d" % k)
                 elif tok[0] == "wrap":
@@ -1024,18 +1260,24 @@ def _run(case):
                         replies.append("err IndexError")
                     else:
                         replies.append("ok %d" % w.wrap(int(tok[1]), tok[2]))
+                elif tok[0] == "dict":
+                    replies.append("ok %d" % w.new_dict(dec_hdrs(tok[1])))
                 elif tok[0] == "req":
-                    c, pairs = int(tok[1]), dec_hdrs(tok[2])
-                    if c >= len(w.conns):
+                    c = int(tok[1])
+                    if c >= len(w.conns) or (tok[2].startswith("#") and int(tok[2][1:]) >= len(w.dicts)):
                         replies.append("err IndexError")
                     else:
                         fam = w.conns[c][1]
+                        hdrs, pairs = w.source(tok[2])
                         cap.take()
-                        w.send(c, pairs, tok[3] if len(tok) > 3 else "get")
+                        w.send(c, hdrs, tok[3] if len(tok) > 3 else "get")
                         got = cap.take()
                         sent = w.canon(fam, got[0]) if len(got) == 1 else "<%d requests>" % len(got)
                         d.update(fam=fam, supplied=[v for k, v in pairs if _is_id_name(k)], sent=sent)
-                        replies.append("sent " + _show(sent))
+                        after = ""
+                        if tok[2].startswith("#"):     # the caller's object after the call
+                            after = " dict=" + enc_hdrs([(k, w.canon(fam, _val(v))) for k, v in hdrs.items()])
+                        replies.append("sent " + _show(sent) + after)
                 elif tok[0] == "burst":
                     c, n = int(tok[1]), int(tok[2])
                     if c >= len(w.conns):
@@ -1044,7 +1286,7 @@ def _run(case):
                         fam = w.conns[c][1]
                         cap.take()
                         for _ in range(n):
-                            w.send(c, [])
+                            w.send(c, None)
                         got = [w.canon(fam, v) for v in cap.take()]
                         d.update(fam=fam, sent=got, n=n)
                         replies.append("ok %s %s" % (_show(got[0]), _show(got[-1])) if got else "ok none none")
@@ -1063,13 +1305,17 @@ def _run(case):
 
 def _run_par(w, cap, tok, d, gen_code):
     c = int(tok[1])
-    threads = [[] if t == "." else [(int(r.split("@")[0]), dec_hdrs(r.split("@")[1])) for r in t.split("+")]
-               for t in tok[2].split("|")]
+    raw = [[] if t == "." else [(int(r.split("@")[0]), r.split("@")[1]) for r in t.split("+")]
+           for t in tok[2].split("|")]
+    if any(src.startswith("#") and int(src[1:]) >= len(w.dicts) for t in raw for _, src in t):
+        return "err IndexError"
+    # (connection, object passed as headers, what the caller put into it)
+    threads = [[(rc,) + w.source(src) for rc, src in t] for t in raw]
     sched = [] if tok[3] == "-" else [tuple(int(x) for x in r.split("*")) for r in tok[3].split(",")]
-    if c >= len(w.conns) or any(rc >= len(w.conns) for t in threads for rc, _ in t):
+    if c >= len(w.conns) or any(r[0] >= len(w.conns) for t in threads for r in t):
         return "err IndexError"
     fam = w.conns[c][1]
-    if any(w.conns[rc][1] != fam for t in threads for rc, _ in t):
+    if any(w.conns[r[0]][1] != fam for t in threads for r in t):
         return "err IndexError"
     if tok[0] == "parw" or gen_code is None:
         ch = w.ch
@@ -1084,8 +1330,8 @@ def _run_par(w, cap, tok, d, gen_code):
     def body(k):
         def run():
             idents[k] = threading.get_ident()
-            for rc, pairs in threads[k]:
-                w.send(rc, pairs)
+            for rc, hdrs, _pairs in threads[k]:
+                w.send(rc, hdrs)
         return run
 
     f = Forced(codes, [body(k) for k in range(len(threads))])
@@ -1097,7 +1343,7 @@ def _run_par(w, cap, tok, d, gen_code):
     d.update(fam=fam, status=status, steps=list(f.steps),
              threads=[[{"supplied": [v for kk, v in pairs if _is_id_name(kk)],
                         "sent": out[k][j] if j < len(out[k]) else "<missing>"}
-                       for j, (rc, pairs) in enumerate(t)] for k, t in enumerate(threads)])
+                       for j, (rc, _hdrs, pairs) in enumerate(t)] for k, t in enumerate(threads)])
     errs = [e for e in f.exc if e is not None]
     if errs:
         d["error"] = type(errs[0]).__name__
@@ -1158,6 +1404,9 @@ def oracle(case, replies):
         st = fams.get(d["fam"])
         if st is None or not st["enabled"] or st["dead"]:
             continue
+        if d.get("kind") == "req" and "error" in d:
+            st["resync"] = True        # refused request (nothing was sent): a number may or may not have been taken
+            continue
         if "error" in d or d.get("status", "ok") != "ok":
             st["dead"] = True          # crash / deadlock: reported by the correspondence, no claim here
             continue
@@ -1186,6 +1435,8 @@ def oracle(case, replies):
                 elif st["next"] is None:
                     st["next"] = s + 1
                 elif st["next"] is not False:
+                    if st.pop("resync", False) and s >= st["next"]:
+                        st["next"] = s
                     if s != st["next"]:
                         return "sequence: %s got number %d, expected %d" % (where, s, st["next"])
                     st["next"] = s + 1
@@ -1210,6 +1461,8 @@ def oracle(case, replies):
         if any(s is None for s in seqs):
             st["next"] = False
         elif seqs and st["next"] is not False:
+            if st.pop("resync", False) and st["next"] is not None and min(seqs) >= st["next"]:
+                st["next"] = min(seqs)
             base = st["next"] if st["next"] is not None else min(seqs)
             if sorted(seqs) != list(range(base, base + len(seqs))):
                 return "sequence: %s handed out %s, expected the %d numbers from %d" % (
@@ -1268,33 +1521,63 @@ def _prog_info():
         kinds = [t[0] for t in prog]
         return len(prog), kinds.index("acq") if "acq" in kinds else 2, kinds.index("rel") if "rel" in kinds else len(prog) // 2
     except Exception:
-        return 37, 2, 17
+        pass
+    try:                                   # the translator refused: measure a real call
+        ch = _conn_http()
+        code = ch._HttpConnImpl._generate_request_id.__code__
+        _warm_up([code], _scratch_call())
+        n = len(_trace_offsets(code, _scratch_call()))
+        if n:
+            return n, min(6, n), n // 2
+    except Exception:
+        pass
+    return 37, 2, 17
 
 
-def _prelude(rng, lines, nfam_max=2):
-    """new/wrap lines; returns {family: [connection indices]} for families with ids"""
+def wrap_line(parent, kind):
+    a = auth_value(kind)
+    return "wrap %d %s %s" % (parent, kind, "none" if a is None else enc_str(a))
+
+
+def _prelude(rng, lines, nfam_max=2, p_dicts=0.4):
+    """new/wrap/dict lines; returns ({family: (ids, [connection indices])}, number of caller dicts)"""
     fams = {}
     nconn = 0
     for f in range(rng.randrange(1, nfam_max + 1)):
         ids = 1 if f == 0 or rng.random() < 0.7 else 0
-        lines.append("new %s %d" % (enc_str(rng.choice(CPS)), ids))
+        form = rng.choice(["str", "str", "slash", "list", "dict"])
+        lines.append("new %s %d %s" % (enc_str(rng.choice(CPS)), ids, form))
         mine = [nconn]
         auth = {nconn: False}          # two authenticating layers are rejected by the adapters themselves
         nconn += 1
         for _ in range(rng.choice([0, 1, 1, 2, 3])):
             parent = rng.choice(mine)
             kind = rng.choice(["plain", "prefix"] if auth[parent] else KINDS)
-            lines.append("wrap %d %s" % (parent, kind))
+            lines.append(wrap_line(parent, kind))
             auth[nconn] = auth[parent] or kind in ("bauth", "token", "client")
             mine.append(nconn)
             nconn += 1
         fams[f] = (ids, mine)
-    return fams
+    ndict = 0
+    if rng.random() < p_dicts:             # header dicts the caller keeps and passes to several requests
+        for _ in range(rng.choice([1, 1, 2, 3])):
+            x = rng.random()
+            pairs = [] if x < 0.1 else _rand_headers(rng, 0.0) if x < 0.35 else \
+                [kv for kv in rng.sample(OTHER, rng.randrange(1, 3)) if kv[0] != "Authorization"]
+            lines.append("dict " + enc_hdrs(pairs))
+            ndict += 1
+    return fams, ndict
 
 
-def _req_line(rng, conns, p_none=0.55):
+def _src(rng, ndict, p_none=0.55):
+    if ndict and rng.random() < 0.5:
+        return "#%d" % rng.randrange(ndict)
+    return enc_hdrs(_rand_headers(rng, p_none))
+
+
+def _req_line(rng, conns, p_none=0.55, ndict=0):
     m = rng.choice(METHODS) if rng.random() < 0.5 else "get"
-    return "req %d %s %s" % (rng.choice(conns), enc_hdrs(_rand_headers(rng, p_none)), m)
+    return "req %d %s %s" % (rng.choice(conns), _src(rng, ndict, p_none), m)
 
 
 def _sched(rng, kind, nthreads, nreq, L, A, R):
@@ -1305,6 +1588,10 @@ def _sched(rng, kind, nthreads, nreq, L, A, R):
         return [(t, 1) for _ in range(total + 5) for t in range(nthreads)]
     if kind == "grid":
         return [(t, rng.randrange(0, L + 2)) for t in range(nthreads)]
+    if kind == "prologue":      # everybody is stopped before / around the acquire of its first call
+        out = [(t, rng.randrange(0, A + 5)) for t in range(nthreads)]
+        rng.shuffle(out)
+        return out + [(rng.randrange(nthreads), rng.randrange(1, L)) for _ in range(rng.randrange(0, 3))]
     if kind == "critical":      # everybody is stopped somewhere between the acquire and the release
         out = [(t, rng.randrange(A, R + 3)) for t in range(nthreads)]
         rng.shuffle(out)
@@ -1324,18 +1611,30 @@ def enc_sched(s):
     return ",".join("%d*%d" % tn for tn in s) if s else "-"
 
 
-def _par_line(rng, conns, kind, L, A, R, nthreads=None, p_none=0.8):
+def _par_line(rng, conns, kind, L, A, R, nthreads=None, p_none=0.8, dicts=()):
+    """dicts: contents of the caller dicts declared so far (requests may pass them by reference)"""
     nthreads = nthreads or rng.choice([2, 2, 2, 3, 3, 4])
     threads, nreq = [], []
     for _ in range(nthreads):
-        reqs = [(rng.choice(conns), _rand_headers(rng, p_none)) for _ in range(rng.choice([1, 1, 2, 2, 3, 0]))]
+        reqs = []
+        for _ in range(rng.choice([1, 1, 2, 2, 3, 0])):
+            if dicts and rng.random() < 0.35:
+                k = rng.randrange(len(dicts))
+                reqs.append((rng.choice(conns), "#%d" % k, dicts[k]))
+            else:
+                h = _rand_headers(rng, p_none)
+                reqs.append((rng.choice(conns), enc_hdrs(h), h))
         threads.append(reqs)
-        nreq.append(sum(1 for _, h in reqs if not any(_is_id_name(k) for k, _ in h)))
-    spec = "|".join("." if not t else "+".join("%d@%s" % (c, enc_hdrs(h)) for c, h in t) for t in threads)
+        nreq.append(sum(1 for _, _, h in reqs if not any(_is_id_name(k) for k, _ in h)))
+    spec = "|".join("." if not t else "+".join("%d@%s" % (c, src) for c, src, _ in t) for t in threads)
     return "par %d %s %s" % (conns[0], spec, enc_sched(_sched(rng, kind, nthreads, nreq, L, A, R)))
 
 
 SCHED_KINDS = ["random", "random", "random", "rr1", "grid", "grid", "critical", "critical", "blocks", "empty"]
+
+
+def _dict_contents(lines):
+    return [dec_hdrs(l.split()[1]) for l in lines if l.startswith("dict ")]
 
 
 def corpus():
@@ -1345,8 +1644,25 @@ def corpus():
     for name in ("x-request-id", "X-Request-Id", "X-request-id", "X-REQUEST-ID"):
         out.append({"lines": ["new %s 1" % x, "req 0 _", "req 0 %s" % enc_hdrs([(name, "Zmine")]), "req 0 _"],
                     "meta": {"kind": "corpus-header-case"}})
-    out.append({"lines": ["new %s 1" % x, "wrap 0 bauth", "wrap 1 prefix", "req 2 _", "req 0 _", "req 1 _",
+    out.append({"lines": ["new %s 1" % x, wrap_line(0, "bauth"), wrap_line(1, "prefix"), "req 2 _", "req 0 _", "req 1 _",
                           "new %s 1" % enc_str("ffff"), "req 3 _", "req 2 _"], "meta": {"kind": "corpus-derived"}})
+    # every constructor over every kind of parent draws from the parent's counter
+    lines, n = ["new %s 1 list" % x], 1
+    for parent_kind in (None, "plain", "prefix", "bauth"):
+        p = 0
+        if parent_kind:
+            lines.append(wrap_line(0, parent_kind))
+            p, n = n, n + 1
+        for kind in KINDS:
+            if parent_kind == "bauth" and kind in ("bauth", "token", "client"):
+                continue
+            lines += [wrap_line(p, kind), "req %d _" % n, "req %d _" % p, "req 0 _"]
+            n += 1
+    out.append({"lines": lines, "meta": {"kind": "corpus-constructors"}})
+    # one caller dict passed to many requests, through several connections of the family, also concurrently
+    out.append({"lines": ["new %s 1" % x, wrap_line(0, "token"), "dict " + enc_hdrs([("Accept", "*/*")]),
+                          "req 0 #0", "req 0 #0 post", "req 1 #0", "par 0 0@#0+1@#0|1@#0|0@#0 0*4,1*9,2*2", "req 1 #0 put",
+                          "dict _", "req 0 #1", "req 0 #1"], "meta": {"kind": "corpus-dict-reuse"}})
     out.append({"lines": ["new %s 1" % x, "req 0 _", "burst 0 10050", "req 0 _", "burst 0 3"],
                 "meta": {"kind": "corpus-burst-10000"}})
     # self-test of the search machinery: on the extracted program the model finds no schedule that repeats a number
@@ -1363,40 +1679,63 @@ def gen_cases(rng, tier):
     # sequential scenarios
     for _ in range(1200 if quick else 20000):
         lines = []
-        fams = _prelude(rng, lines)
+        fams, ndict = _prelude(rng, lines)
         allc = [c for _, (ids, cs) in fams.items() for c in cs]
         for _ in range(rng.randrange(3, 25)):
-            lines.append(_req_line(rng, allc))
+            lines.append(_req_line(rng, allc, ndict=ndict))
             if rng.random() < 0.03:
                 lines.append("burst %d %d" % (rng.choice(allc), rng.randrange(1, 40)))
-        yield {"lines": lines, "meta": {"kind": "sequential"}}
-    # forced interleavings
+        yield {"lines": lines, "meta": {"kind": "sequential" + ("-dicts" if ndict else "")}}
+    # malformed stream: connections / dicts that do not exist, an Authorization header of the caller's or two
+    # authenticating layers (the adapters refuse both with AssertionError, no id is taken)
+    for _ in range(80 if quick else 1500):
+        lines = ["new %s 1 str" % enc_str(rng.choice(CPS))]
+        kinds = [rng.choice(KINDS) for _ in range(rng.randrange(1, 4))]
+        for k, kind in enumerate(kinds):
+            lines.append(wrap_line(rng.randrange(0, k + 1), kind))
+        lines.append("dict " + enc_hdrs([("Authorization", "Zsecret")] if rng.random() < 0.5 else [("Accept", "*/*")]))
+        n = len(kinds) + 1
+        for _ in range(rng.randrange(3, 10)):
+            x = rng.random()
+            c = rng.randrange(n) if x > 0.15 else n + rng.randrange(3)
+            src = "#%d" % (0 if rng.random() < 0.8 else 1 + rng.randrange(2)) if rng.random() < 0.4 else \
+                enc_hdrs(([("Authorization", "Zmine")] if rng.random() < 0.4 else []) + _rand_headers(rng, 0.6))
+            lines.append("req %d %s %s" % (c, src, rng.choice(METHODS)))
+        if rng.random() < 0.3:
+            lines.append("wrap %d plain none" % (n + 1))
+            lines.append("par %d 0@_|0@_ 0*3" % (n + 2))
+        lines.append("req 0 _")
+        yield {"lines": lines, "meta": {"kind": "malformed"}}
+    # forced interleavings; every third scenario starts them on a connection that has not been used yet
     for n in range(800 if quick else 20000):
         lines = []
-        fams = _prelude(rng, lines)
+        fams, ndict = _prelude(rng, lines)
         f = rng.choice(list(fams))
         ids, conns = fams[f]
         allc = [c for _, (_, cs) in fams.items() for c in cs]
-        for _ in range(rng.randrange(0, 4)):
-            lines.append(_req_line(rng, allc))
-        kind = SCHED_KINDS[n % len(SCHED_KINDS)]
+        fresh = n % 3 == 0
+        if not fresh:
+            for _ in range(rng.randrange(1, 4)):
+                lines.append(_req_line(rng, allc, ndict=ndict))
+        kind = SCHED_KINDS[(n // 3) % len(SCHED_KINDS)] if not fresh else rng.choice(["prologue", "prologue", "grid", "rr1"])
+        dicts = _dict_contents(lines)
         for _ in range(rng.choice([1, 1, 2])):
-            lines.append(_par_line(rng, conns, kind, L, A, R))
-            lines.append(_req_line(rng, conns, 1.0))
-        yield {"lines": lines, "meta": {"kind": "par-" + kind}}
-    # exhaustive small scope: two threads, one call each, each stopped at every position
+            lines.append(_par_line(rng, conns, kind, L, A, R, dicts=dicts))
+            lines.append(_req_line(rng, conns, 1.0, ndict=ndict))
+        yield {"lines": lines, "meta": {"kind": "par-" + kind + ("-fresh" if fresh else "")}}
+    # exhaustive small scope: two threads, one call each on a brand-new connection, each stopped at every position
     for a in range(0, L + 1):
         for b in range(0, L + 1):
-            yield {"lines": ["new %s 1" % enc_str("ab12"), "wrap 0 bauth",
+            yield {"lines": ["new %s 1" % enc_str("ab12"), wrap_line(0, "bauth"),
                              "par 0 0@_|1@_ 0*%d,1*%d" % (a, b), "req 0 _"],
-                   "meta": {"kind": "par-grid2"}}
+                   "meta": {"kind": "par-grid2-fresh"}}
     if not quick:
         for a in range(0, L + 1, 4):
             for b in range(0, L + 1, 4):
                 for c in range(0, L + 1, 4):
                     yield {"lines": ["new %s 1" % enc_str("ab12"),
                                      "par 0 0@_+0@_|0@_+0@_|0@_ 0*%d,1*%d,2*%d,0*%d" % (a, b, c, L), "req 0 _"],
-                           "meta": {"kind": "par-grid3"}}
+                           "meta": {"kind": "par-grid3-fresh"}}
         yield {"lines": ["new %s 1" % enc_str("ab12"), "burst 0 100050", "req 0 _"], "meta": {"kind": "burst-100000"}}
 
 
@@ -1433,7 +1772,15 @@ def search_cases(rng, tier):
                 name[i] = name[i].upper()
         yield {"lines": ["new %s 1" % x, "req 0 _", "req 0 %s" % enc_hdrs([("".join(name), "Zmine")]), "req 0 _"],
                "meta": {"kind": "search-header-case"}}
-    # 3. the real function, two threads stopped at every pair of positions, then three threads
+    # 2b. one caller dict passed again and again (state left in the caller's object)
+    for pairs in ([("Accept", "*/*")], [], [("X-Trace", "Zt"), ("Accept", "*/*")]):
+        for kind in (None, "plain", "bauth", "prefix"):
+            lines = ["new %s 1" % x] + ([wrap_line(0, kind)] if kind else []) + ["dict " + enc_hdrs(pairs)]
+            c = 1 if kind else 0
+            lines += ["req %d #0" % c, "req %d #0 post" % c, "req 0 #0", "par 0 0@#0|%d@#0 0*3,1*4" % c, "req 0 _"]
+            yield {"lines": lines, "meta": {"kind": "search-dict-reuse"}}
+    # 3. the real function on a brand-new connection (first call / first call), two threads stopped at every
+    #    pair of positions, then two calls each
     for a in range(0, L + 3):
         for b in range(0, L + 3):
             yield {"lines": ["new %s 1" % x, "par 0 0@_|0@_ 0*%d,1*%d" % (a, b), "req 0 _"],
@@ -1456,9 +1803,36 @@ def search_cases(rng, tier):
 
 
 # ====================================================================== shrinking, statistics
+def _refs(line):
+    """(connection indices, dict indices) a line refers to"""
+    t = line.split()
+    conns, dicts = set(), set()
+    if t[0] in ("wrap", "burst"):
+        conns.add(int(t[1]))
+    elif t[0] == "req":
+        conns.add(int(t[1]))
+        if t[2].startswith("#"):
+            dicts.add(int(t[2][1:]))
+    elif t[0] in ("par", "parw"):
+        conns.add(int(t[1]))
+        for th in t[2].split("|"):
+            for r in ([] if th == "." else th.split("+")):
+                c, src = r.split("@")
+                conns.add(int(c))
+                if src.startswith("#"):
+                    dicts.add(int(src[1:]))
+    return conns, dicts
+
+
 def shrink(case):
     lines = case["lines"]
     meta = case.get("meta", {})
+    # the last connection / the last caller dict, when nothing uses it
+    for kinds, which in ((("new", "wrap"), 0), (("dict",), 1)):
+        made = [i for i, l in enumerate(lines) if l.split()[0] in kinds]
+        if made and not any(len(made) - 1 in _refs(l)[which] for l in lines[made[-1] + 1:]) \
+                and not (which == 0 and len(made) == 1):
+            yield {"lines": lines[:made[-1]] + lines[made[-1] + 1:], "meta": meta}
     for i in range(len(lines) - 1, -1, -1):
         if lines[i].split()[0] in ("req", "burst", "par", "parw"):
             yield {"lines": lines[:i] + lines[i + 1:], "meta": meta}
@@ -1479,7 +1853,7 @@ def shrink(case):
         elif tok[0] == "burst" and int(tok[2]) > 1:
             for n in (int(tok[2]) // 2, int(tok[2]) - 1):
                 yield {"lines": lines[:i] + ["burst %s %d" % (tok[1], n)] + lines[i + 1:], "meta": meta}
-        elif tok[0] == "req" and tok[2] != "_":
+        elif tok[0] == "req" and tok[2] != "_" and not tok[2].startswith("#"):
             pairs = dec_hdrs(tok[2])
             for j in range(len(pairs)):
                 yield {"lines": lines[:i] + [" ".join(["req", tok[1], enc_hdrs(pairs[:j] + pairs[j + 1:])] + tok[3:])]
@@ -1499,26 +1873,52 @@ def nontrivial(case, replies):
 
 def tags(case, replies):
     yield case.get("meta", {}).get("kind", "?")
+    dicts, used, parent_kind = [], {}, {}
+    nconn = 0
     for l, r in zip(case["lines"], replies):
         t = l.split()
-        if t[0] == "req":
-            pairs = dec_hdrs(t[2])
+        if t[0] == "dict":
+            dicts.append(dec_hdrs(t[1]))
+            yield "dict:" + ("empty" if not dicts[-1] else "with-id" if any(_is_id_name(k) for k, _ in dicts[-1]) else "plain")
+        elif t[0] == "new":
+            parent_kind[nconn] = "base"
+            nconn += 1
+            yield "new:form=" + (t[3] if len(t) > 3 else "str") + (":ids" if t[2] == "1" else ":no-ids")
+        elif t[0] == "req":
+            ref = t[2].startswith("#")
+            pairs = dicts[int(t[2][1:])] if ref and int(t[2][1:]) < len(dicts) else [] if ref else dec_hdrs(t[2])
+            if ref:
+                used[t[2]] = used.get(t[2], 0) + 1
+                yield "req:caller-dict" + (":again" if used[t[2]] > 1 else ":first")
             if any(_is_id_name(k) for k, _ in pairs):
                 yield "req:caller-id" + ("" if any(k == "X-Request-ID" for k, _ in pairs) else ":other-case")
+            elif r.startswith("err"):
+                yield "req:" + r.replace(" ", ":")
             else:
-                yield "req:auto" if r != "sent none" else "req:no-id"
+                yield "req:auto" if not r.startswith("sent none") else "req:no-id"
+            if len(t) > 3 and t[3] in ("post", "put", "patch"):
+                yield "req:with-body"
         elif t[0] in ("par", "parw"):
             yield "par:threads=%d" % len(t[2].split("|"))
             yield "par:reply=" + r.split()[0] + (":" + r.split()[1] if r.startswith("err") else "")
+            if "#" in t[2]:
+                yield "par:caller-dict"
         elif t[0] == "wrap":
-            yield "wrap:" + t[2]
+            p = int(t[1])
+            yield "wrap:%s-over-%s" % (t[2], parent_kind.get(p, "?"))
+            parent_kind[nconn] = t[2]
+            nconn += 1
 
 
-RULE = ("sequential scenarios (1-2 connection families, derived connections of 5 kinds, 3-25 requests with no / "
-        "unrelated / near-miss / caller-supplied id headers in many capitalisations, bursts across 9999->10000), "
+RULE = ("sequential scenarios (1-2 connection families built from 4 forms of conn_data, derived connections of 5 kinds "
+        "over every kind of parent, 3-25 requests with no / unrelated / near-miss / caller-supplied id headers in many "
+        "capitalisations, passed in a dict built for the call or in one of 1-3 dicts the caller keeps and passes "
+        "again (also through other connections of the family and concurrently), with and without a json body, "
+        "bursts across 9999->10000), "
         "forced interleavings of 2-4 real threads x 0-3 requests inside the real _generate_request_id (random runs, "
-        "round robin, everybody stopped inside the locked section, whole-call blocks, stop positions grid), "
-        "all pairs of stop positions for 2 threads. non-trivial = a par line with >= 2 threads "
+        "round robin, everybody stopped inside the locked section / in the prologue of its first call, whole-call "
+        "blocks, stop positions grid; every third scenario on a connection that has never been used), "
+        "all pairs of stop positions for 2 threads on a brand-new connection. non-trivial = a par line with >= 2 threads "
         "or >= 2 id-carrying sequential requests; distinct by protocol text")
 TRUSTED = ["CPython switches threads only between bytecode instructions (GIL)", "threading.Lock (mutual exclusion)",
            "sys.settrace opcode events = the instructions dis lists (cross-checked against a traced call on every run)",
@@ -1535,18 +1935,29 @@ LEVEL_TEXT = ("Proved in Lean for every program of the WellLocked shape, any num
               "the driver executes for a forced schedule always terminates (no deadlock) and hands out exactly "
               "{c..c'-1}, c' - c = number of calls; par_world = the same on what is sent: ids of concurrent requests "
               "of one connection family are pairwise distinct renderings of the next #ids numbers, requests with "
-              "their own id keep their headers and take nothing. program_ok / format_ok / header_test_ok: the "
-              "instruction list, id format and header test extracted on every run from the bytecode of "
-              "_generate_request_id / do_request have the required shape (decide). format_injective, caller_id (any "
-              "capitalisation), request_auto (sequential: counter + 1, header = rendering of the old counter), "
-              "derived_shares. model = code: sequential scenarios and forced interleavings of real threads inside "
-              "the real function (opcode-level scheduler) compared id by id with the compiled model.")
+              "their own id keep their headers and take nothing, caller dicts untouched. Sequential, whole "
+              "do_request header path (request_spec, request_caller_id, request_auto_sent): RequestArguments copy, "
+              "Authorization adapters, id branch, content type - a caller id in any capitalisation is what is sent "
+              "and moves no counter; otherwise counter + 1 and the rendering of the old counter is sent; the "
+              "caller's dict objects (heap) are never written, so nothing is left over for a later request with the "
+              "same dict. derived_shares: for EVERY connection class of the source (constructors_share, read from "
+              "the constructors' bytecode) a derived connection refers to its parent's implementation object. "
+              "Obligations re-decided from the source on every run: program_ok, format_ok, header_test_ok, "
+              "hdr_init_ok, constructors_share, program_fuel. format_injective. model = code: sequential scenarios "
+              "(incl. reuse of caller dicts, all constructor pairs) and forced interleavings of real threads inside "
+              "the real function (opcode-level scheduler, also on never-used connections) compared id by id and "
+              "caller dict by caller dict with the compiled model.")
 LEVEL_NOTE = ("Partial by nature: CPython's 'threads switch only between bytecodes' and threading.Lock are trusted, not "
               "proved; exception paths of the with statement (asynchronous exceptions) are not modelled; the "
-              "translator (dis + symbolic stack evaluation, cross-checked against a traced call) and the adapter are "
-              "trusted; model = code only on the sampled scenarios and schedules (all pairs of stop positions for two "
-              "threads are exhaustive). do_request's id branch is modelled by hand around two generated constants "
-              "(header test, header name); adapters that would themselves add an X-Request-ID are not modelled; "
-              "header names are ASCII.")
-TECHNIQUE = ("Lean 4 invariant proof over all schedules of a bytecode-extracted instruction list + decide on the "
-             "generated program + forced-interleaving differential test (sys.settrace opcode scheduler)")
+              "translator (dis + symbolic stack evaluation, cross-checked against a traced call; pattern checks of "
+              "the constructors and of RequestArguments.__init__) and the adapter are trusted; model = code only on "
+              "the sampled scenarios and schedules (all pairs of stop positions for two threads on a fresh "
+              "connection are exhaustive). Hand-modelled around generated constants: the order of the steps of "
+              "do_request, that the dict of the request arguments is the one handed to urllib, the Authorization / "
+              "Content-Type names; adapters other than the authenticating ones and the path prefix are not "
+              "modelled; concurrent requests are modelled without body and with copy semantics only; header names "
+              "are ASCII; that the lock object exists before the first call is established by the translator "
+              "(it refuses a lock that is not a plain attribute read) and by first-call schedules in the tie.")
+TECHNIQUE = ("Lean 4 invariant proof over all schedules of a bytecode-extracted instruction list + heap model of "
+             "connections / caller dicts with constants read from bytecode + decide on the generated constants + "
+             "forced-interleaving differential test (sys.settrace opcode scheduler)")
